@@ -63,6 +63,10 @@ from astlib import TableError, find_func, cstr, cnat, cq, float_lit_exact
 NAT, BOOL, TRUTH, STR, REGEX, NONE = 'nat', 'bool', 'truth', 'str', 'regex', 'none'
 INT, QNUM, OPAQUE, FLOATLIT = 'int', 'Q', 'opaque', 'floatlit'
 DYN, UNIT, MSG, NDARRAY = 'dyn', 'unit', 'msg', 'ndarray'
+ANY = '?'          # element type of an empty list display, fixed by its first use
+RAW = '__raw__'    # a complete return payload coming out of a loop / region (already coerced, state included)
+ST = 'st__'        # the Coq variable holding the current state (the mutated content dictionary)
+OBJ = 'object'     # a parameter / local variable that is another instance of the same class (its own header attributes + state)
 
 
 def LIST(t):
@@ -91,7 +95,7 @@ RESERVED = set('''if then else let in match with end fun do forall exists as ret
 Ok Err Some None true false negb andb orb tt fst snd nat bool list option unit str res bind
 EValue EIndex EKey EType ECrash Ret Next BPos BNeg pslice py_index py_floordiv py_mod py_sub py_range py_all py_for
 py_list_eqb py_pair_eqb py_option_eqb py_in py_join py_enumerate py_dict_get py_bound_o bnd_of_Z allclose rtol_default
-dyn_int dyn_is_none dyn_eq_int dyn_getitem dyn_len dyn_iter dyn_contains dyn_index dyn_items dyn_mul py_set py_subset py_inter
+py_unbound py_while py_list_set dyn_keys py_the py_some st__ py_for_b RetB NextB BrkB dyn_set2 dyn_del2 dyn_seq dyn_slice_step py_every py_dict_has py_repeat py_nat_o dyn_times dyn_getidx dyn_slice dyn_int dyn_is_none dyn_eq_int dyn_getitem dyn_len dyn_iter dyn_contains dyn_index dyn_items dyn_mul py_set py_subset py_inter
 jv jv_eqb JStr JInt JNull JArr JObj JBool JNum
 str_eqb length app map Nat List Bool PyOps2 cname N Z Q'''.split())
 
@@ -103,7 +107,8 @@ class Fn:
     """Declared signature of one translated function."""
 
     def __init__(self, coq_name, rel, name, ret, params, cls=None, inner=None, self_attrs=None, closure=None,
-                 tparams=(), eqs=None, externals=None, returns_inner=None, templates=None, vops=None, prop=False):
+                 tparams=(), eqs=None, externals=None, returns_inner=None, templates=None, vops=None, prop=False,
+                 state=None, mutates=False, alias_path=False, imports=None, new_object=None, while_fuel=None):
         self.coq_name, self.rel, self.name, self.cls, self.inner = coq_name, rel, name, cls, inner
         self.externals = dict(externals or {})   # dotted Python name -> (Coq parameter name, [argument types], result type)
         self.returns_inner = returns_inner       # the function ends with `def <inner>..; return <inner>` (a closure)
@@ -117,10 +122,20 @@ class Fn:
         # name or None>, fmt=<format of the Coq term, {i} = hole i> or None)]; an expression that matches `src` becomes the
         # parameter applied to its (non-opaque) holes.  A hole of type FLOATLIT matches a numeric literal (-> exact Q).
         self.templates = list(templates or [])
+        self.state = state                       # name of the self attribute that is the threaded state (e.g. '_content'), or None
+        self.mutates = mutates                   # the function changes the state: it returns `res (result * state)`
+        self.alias_path = alias_path             # the method returns the nested dictionary self.<state>[a][b] of its pair argument
+        self.new_object = new_object             # dict(src=<template of the constructor call>, attrs={attr: hole index | 'self'}, content=<param>):
+                                                 # `x = <constructor>(..)` creates a local object x
+        self.while_fuel = while_fuel             # Python expression (source) bounding the iterations of the `while` loops
+        self.used_obj = {}                       # filled by the translation: object parameter -> (attributes used, state used?)
+        self.imports = dict(imports or {})       # name -> dict(coq=, attrs=[self attributes passed first], params=[types], ret=type):
+                                                 # functions / methods translated in ANOTHER generated module
         self.prop = prop                         # the function is the getter of a property (decorated with @property)
         self.vops = dict(vops or {})             # type variable -> {'index': <Coq parameter  V -> bnd -> res V>}
         self.used_attrs = None                   # filled by the translation: attributes actually needed (incl. callees)
         self.used_vops_ = []
+        self.defaults_none = []                  # filled by the translation: which parameters default to None
         self.used_tparams = []                   # filled by the translation: [(parameter name, Coq type)] of the templates used
         self.lineno = None
 
@@ -138,6 +153,12 @@ class Tr:
         self.loop_depth = 0
         self.loop_ks = []
         self.in_region = 0
+        self.lazy_depth = 0
+        self.loop_brk = []
+        self.cont_stmts = []         # the statements that follow the construct being translated, outermost first
+        self.objs = {}               # object variable -> dict(local=bool); attributes are <name>__<attr>, the state <name>__st
+        self.used_obj = {}           # object parameter -> [set of attributes, state used]
+        self.fresh_lists = set()
         self.size = 0
 
     # ------------------------------------------------------------------ helpers
@@ -150,7 +171,7 @@ class Tr:
         return '%s__%d' % (stem, self.tmp)
 
     def var(self, name, node):
-        if name in RESERVED or re.match(r'^(t|c|x|rv)__\d*$', name) or name.endswith('_src') or name.startswith('self_') \
+        if name in RESERVED or re.match(r'^(t|c|x|p|rv|st)__\d*$', name) or name.endswith('_src') or name.startswith('self_') \
                 or name in self.spec.eqs.values() or name in self.spec.tparams or not re.match(r'^[A-Za-z_][A-Za-z0-9_]*$', name) \
                 or name == '_':
             self.fail(node, 'variable name %r collides with a name the translator emits' % name)
@@ -195,16 +216,18 @@ class Tr:
     def lazy(self, f):
         """run f() with a fresh list of pending binds; returns (result of f, the binds it produced)"""
         saved, self.binds = self.binds, []
+        self.lazy_depth += 1
         try:
             r = f()
             b = self.binds
         finally:
             self.binds = saved
+            self.lazy_depth -= 1
         return r, b
 
     @staticmethod
     def wrap(binds, tail):
-        return ''.join('do %s <- %s; ' % b for b in binds) + tail
+        return ''.join(('let %s := %s in ' % (b[0][4:], b[1])) if b[0].startswith('LET ') else ('do %s <- %s; ' % b) for b in binds) + tail
 
     def bind(self, rhs, stem='t'):
         t = self.fresh(stem)
@@ -278,8 +301,16 @@ class Tr:
             return '(JInt %s)' % term
         if to == DYN and ty == NAT:
             return '(JInt (Z.of_nat %s))' % term
+        if to == UNIT and ty == NONE:
+            return 'tt'
+        if to == DYN and ty == BOOL:
+            return '(JBool %s)' % term
         if to == DYN and ty == NONE:
             return 'JNull'
+        if to == DYN and ty in (LIST(DYN), LIST(ANY)):
+            return '(JArr %s)' % term
+        if isinstance(to, tuple) and to[0] == 'list' and ty == LIST(ANY):
+            return term
         if isinstance(to, tuple) and to[0] in ('list', 'set') and isinstance(ty, tuple) and ty[0] == to[0] and to[1] == DYN \
                 and ty[1] in (STR, INT, NAT):
             return '(List.map (fun x__ => %s) %s)' % (self.coerce('x__', ty[1], DYN, node), term)
@@ -290,10 +321,25 @@ class Tr:
                 return '(Some %s)' % term
         self.fail(node, 'a value of type %r where %r is expected' % (ty, to))
 
+    @staticmethod
+    def compat(a, b):
+        """equal up to the element type of an empty list display"""
+        if a == b:
+            return True
+        if isinstance(a, tuple) and isinstance(b, tuple) and a[0] == b[0] == 'list' and ANY in (a[1], b[1]):
+            return True
+        return False
+
+    @staticmethod
+    def join(a, b):
+        return b if (isinstance(a, tuple) and a[0] == 'list' and a[1] == ANY) else a
+
     def coerce_m(self, term, ty, to, node):
         """coerce, possibly with a bind: a dynamic value where an int is expected is converted (TypeError otherwise)"""
         if ty == DYN and to == INT:
             return self.bind('dyn_int %s' % term)
+        if ty == DYN and to == LIST(DYN):          # a value passed where a sequence is expected
+            return self.bind('dyn_seq %s' % term)
         return self.coerce(term, ty, to, node)
 
     # ------------------------------------------------------------------ expressions
@@ -376,11 +422,17 @@ class Tr:
         self.size += 1
         if self.size > 4000:
             self.fail(e, 'translation too large')
+        if isinstance(e, ast.Name) and e.id in self.objs and e.id not in env:
+            return self.obj_state(e.id), DYN          # an instance used as a value: its content
         if isinstance(e, ast.Name):
             if e.id not in env:
                 self.fail(e, 'unknown variable %s' % e.id)
             if env[e.id] == NONE:
                 return 'None', NONE
+            if isinstance(env[e.id], tuple) and env[e.id][0] == 'alias':
+                self.fail(e, 'a variable bound to a dictionary of an instance that changes can only be stored into')
+            if isinstance(env[e.id], tuple) and env[e.id][0] == 'maybe':      # bound inside a loop that may not have run: UnboundLocalError
+                return self.bind('py_unbound %s__o' % e.id), env[e.id][1]
             if isinstance(env[e.id], tuple) and env[e.id][0] == 'closure':
                 self.fail(e, 'an inner function can only be returned')
             return e.id, env[e.id]
@@ -406,16 +458,32 @@ class Tr:
             if NONE in (ta, tb) or TRUTH in (ta, tb):
                 self.fail(e, 'tuple component of unknown type')
             return '(%s, %s)' % (a, b), PAIR(ta, tb)
+        if isinstance(e, ast.List):
+            if not e.elts:
+                return '(@nil _)', LIST(ANY)
+            els = [self.expr(x, env) for x in e.elts]
+            t0 = els[0][1]
+            if t0 in (NONE, TRUTH) or any(t != t0 for _, t in els):
+                self.fail(e, 'list display with elements of different / undetermined types')
+            return '[%s]' % '; '.join(a for a, _ in els), LIST(t0)
         if isinstance(e, ast.Attribute):
             if isinstance(e.value, ast.Name) and e.value.id == 'self' and 'self' not in env:
                 for a, t in self.spec.self_attrs:
                     if a == e.attr:
                         self.used.add(a)
                         return 'self_' + a, t
+                if self.spec.state == e.attr:
+                    return ST, DYN
                 callee = self.registry.get((self.spec.cls, e.attr))
                 if callee is not None and callee.prop:
                     return self.call_method(callee, [], env, e)
                 self.fail(e, 'self.%s is not a declared attribute' % e.attr)
+            if self.is_obj(e.value, env) and self.is_obj(e.value, env) != 'self':
+                o2 = self.is_obj(e.value, env)
+                for a, t in self.spec.self_attrs:
+                    if a == e.attr:
+                        return self.obj_attr(o2, a), t
+                self.fail(e, '%s.%s is not a declared attribute' % (o2, e.attr))
             v, tv = self.expr(e.value, env)
             if tv == NDARRAY and e.attr == 'shape':
                 return v, LIST(NAT)
@@ -453,11 +521,27 @@ class Tr:
             if isinstance(ta, tuple) and ta[0] == 'pair' and isinstance(e.slice, ast.Constant) and e.slice.value in (0, 1) \
                     and not isinstance(e.slice.value, bool):
                 return '(%s %s)' % ('fst' if e.slice.value == 0 else 'snd', a), ta[1 + e.slice.value]
-            if ta == DYN and not isinstance(e.slice, ast.Slice):
-                k, tk = self.expr(e.slice, env)
-                if tk != STR:
-                    self.fail(e, 'subscript of a dynamic value with a key of type %r' % (tk,))
-                return self.bind('dyn_getitem %s %s' % (a, k)), DYN
+            if ta == DYN and isinstance(e.slice, ast.Slice) and e.slice.step is not None:
+                lo = 'None' if e.slice.lower is None else '(Some %s)' % self.bound(e.slice.lower, env)
+                hi = 'None' if e.slice.upper is None else '(Some %s)' % self.bound(e.slice.upper, env)
+                stp, tstp = self.expr(e.slice.step, env)
+                if tstp == OPT(NAT):       # a step of None is the default step 1
+                    stp, tstp = '(match %s with Some n__ => n__ | None => 1%%nat end)' % stp, NAT
+                if tstp != NAT:
+                    self.fail(e, 'slice step of type %r' % (tstp,))
+                return self.bind('dyn_slice_step %s %s %s %s' % (lo, hi, stp, a)), DYN
+            if ta == DYN and isinstance(e.slice, ast.Slice):
+                if e.slice.step is not None:
+                    self.fail(e, 'slice with a step')
+                lo = 'None' if e.slice.lower is None else '(Some %s)' % self.bound(e.slice.lower, env)
+                hi = 'None' if e.slice.upper is None else '(Some %s)' % self.bound(e.slice.upper, env)
+                return self.bind('dyn_slice %s %s %s' % (lo, hi, a)), DYN
+            if ta == DYN:
+                (k, tk), kb = self.lazy(lambda: self.expr(e.slice, env))
+                if tk == STR:
+                    self.binds += kb
+                    return self.bind('dyn_getitem %s %s' % (a, k)), DYN
+                return self.bind('dyn_getidx %s %s' % (a, self.bound(e.slice, env))), DYN
             if ta == LIST(DYN) and not isinstance(e.slice, ast.Slice) and not isinstance(e.slice, (ast.Constant, ast.UnaryOp)):
                 k, tk = self.lazy(lambda: self.expr(e.slice, env))[0]
                 if tk == DYN:
@@ -516,11 +600,16 @@ class Tr:
             els = [self.coerce(*self.expr(x, env), ta[1], x) for x in rhs.elts]
             r = '(%s %s [%s])' % (self.eqb(ta, e), a, '; '.join(els))
             return (r if isinstance(op, ast.Eq) else '(negb %s)' % r), BOOL
+        if isinstance(op, (ast.In, ast.NotIn)) and isinstance(rhs, ast.Tuple):
+            rhs = ast.copy_location(ast.List(elts=rhs.elts, ctx=ast.Load()), rhs)
         b, tb = self.expr(rhs, env)
         if isinstance(op, (ast.Eq, ast.NotEq)) and DYN in (ta, tb) and (ta in (NAT, INT) or tb in (NAT, INT)):
             d, n, tn = (a, b, tb) if ta == DYN else (b, a, ta)
             r = '(dyn_eq_int %s %s)' % (d, self.coerce(n, tn, INT, e))
             return (r if isinstance(op, ast.Eq) else '(negb %s)' % r), BOOL
+        if isinstance(op, (ast.In, ast.NotIn)) and isinstance(tb, tuple) and tb[0] == 'dict':
+            r = '(py_dict_has %s %s %s)' % (self.eqb(tb[1], e), b, self.coerce(a, ta, tb[1], e))
+            return (r if isinstance(op, ast.In) else '(negb %s)' % r), BOOL
         if isinstance(op, (ast.In, ast.NotIn)) and tb == DYN:
             r = self.bind('dyn_contains %s %s' % (b, self.coerce(a, ta, DYN, e)))
             return (r if isinstance(op, ast.In) else '(negb %s)' % r), BOOL
@@ -607,13 +696,29 @@ class Tr:
         if isinstance(op, ast.BitAnd) and isinstance(ta, tuple) and ta[0] == 'set' and isinstance(tb, tuple) and tb[0] == 'set':
             a, b, t = self.set_unify(a, ta, b, tb, node)
             return '(py_inter %s %s %s)' % (self.eqb(t[1], node), a, b), t
+        if isinstance(op, ast.Mult) and isinstance(ta, tuple) and ta[0] == 'list' and tb == NAT:
+            return '(py_repeat %s %s)' % (a, b), ta
+        if isinstance(op, ast.Mult) and isinstance(tb, tuple) and tb[0] == 'list' and ta == NAT:
+            return '(py_repeat %s %s)' % (b, a), tb
+        if isinstance(op, ast.Mult) and (ta, tb) == (DYN, NAT):
+            return self.bind('dyn_times %s %s' % (a, b)), DYN
+        if isinstance(op, ast.Mult) and (ta, tb) == (NAT, DYN):
+            return self.bind('dyn_times %s %s' % (b, a)), DYN
+        if OPT(NAT) in (ta, tb) and ta in (NAT, OPT(NAT)) and tb in (NAT, OPT(NAT)):
+            # an operand that may be None: TypeError, raised by the operator after both operands were evaluated
+            if ta == OPT(NAT):
+                a, ta = self.bind('py_nat_o %s' % a), NAT
+            if tb == OPT(NAT):
+                b, tb = self.bind('py_nat_o %s' % b), NAT
         if isinstance(op, ast.Mult) and DYN in (ta, tb) and ta in (DYN, NAT, INT) and tb in (DYN, NAT, INT):
             return self.bind('dyn_mul %s %s' % (self.coerce(a, ta, DYN, node), self.coerce(b, tb, DYN, node))), DYN
         if isinstance(op, ast.Add) and INT not in (ta, tb):
             if ta == NAT and tb == NAT:
                 return '(%s + %s)%%nat' % (a, b), NAT
-            if ta == tb and (ta == STR or (isinstance(ta, tuple) and ta[0] == 'list')):
+            if ta == STR and tb == STR:
                 return '(%s ++ %s)' % (a, b), ta
+            if isinstance(ta, tuple) and ta[0] == 'list' and self.compat(ta, tb):
+                return '(%s ++ %s)' % (a, b), self.join(ta, tb)
             self.fail(node, '+ on %r and %r' % (ta, tb))
         if INT in (ta, tb) and ta in (NAT, INT) and tb in (NAT, INT) and isinstance(op, (ast.Add, ast.Mult, ast.Sub)):
             a, b = self.coerce(a, ta, INT, node), self.coerce(b, tb, INT, node)
@@ -659,7 +764,12 @@ class Tr:
         if e.keywords or any(isinstance(a, ast.Starred) for a in e.args):
             self.fail(e, 'keyword / starred arguments')
         f = e.func
+        if isinstance(f, ast.Name) and f.id not in env and f.id in self.spec.imports:
+            return self.call_import(self.spec.imports[f.id], e.args, env, e)
         if isinstance(f, ast.Name) and f.id not in env:
+            if f.id == 'deepcopy' and len(e.args) == 1:
+                # values are immutable JSON data and lists are never mutated through an alias: a copy is the value itself
+                return self.expr(e.args[0], env)
             if f.id == 'len' and len(e.args) == 1:
                 a, ta = self.expr(e.args[0], env)
                 if ta == DYN:
@@ -684,6 +794,13 @@ class Tr:
                     self.fail(e, 'range() of non-integers')
                 lo, hi = ('0', args[0][0]) if len(args) == 1 else (args[0][0], args[1][0])
                 return '(py_range %s %s)' % (lo, hi), LIST(NAT)
+            if f.id == 'list' and len(e.args) == 1:
+                a, ta = self.expr(e.args[0], env)
+                if ta == DYN:
+                    return self.bind('dyn_iter %s' % a), LIST(DYN)
+                if isinstance(ta, tuple) and ta[0] in ('list', 'set'):
+                    return a, LIST(ta[1])
+                self.fail(e, 'list() of a value of type %r' % (ta,))
             if f.id in ('tuple', 'set') and len(e.args) == 1:
                 a, ta = self.expr(e.args[0], env)
                 if ta == DYN:
@@ -718,16 +835,64 @@ class Tr:
                 body = self.wrap(binds, 'Ok %s' % self.truth(c, tc, g.elt))
                 return self.bind('py_all (fun %s => %s) %s' % (v, body, seq)), BOOL
             self.fail(e, 'unsupported call %s(..)' % f.id)
-        if isinstance(f, ast.Attribute) and isinstance(f.value, ast.Name) and f.value.id == 'self' and 'self' not in env:
+        if isinstance(f, ast.Attribute) and self.is_obj(f.value, env):
+            recv = self.is_obj(f.value, env)
             callee = self.registry.get((self.spec.cls, f.attr))
+            if callee is None and ('self.' + f.attr) in self.spec.imports:
+                return self.call_import(self.spec.imports['self.' + f.attr], e.args, env, e, recv)
             if callee is None or callee.used_attrs is None or callee.prop:
-                self.fail(e, 'self.%s() is not a translated method' % f.attr)
-            return self.call_method(callee, e.args, env, e)
+                self.fail(e, '%s.%s() is not a translated method' % (recv, f.attr))
+            return self.call_method(callee, e.args, env, e, recv)
+
         return self.call_rest(e, env)
 
-    def call_method(self, callee, arg_nodes, env, e):
+    # ------------------------------------------------------------------ objects (self and other instances of the class)
+    def obj_attr(self, obj, a):
+        if obj == 'self':
+            self.used.add(a)
+            return 'self_' + a
+        self.used_obj.setdefault(obj, [set(), False])[0].add(a)
+        return '%s__%s' % (obj, a)
+
+    def obj_state(self, obj):
+        if obj == 'self':
+            if not self.spec.state:
+                self.fail(self.fn, 'self has no threaded state in this function')
+            return ST
+        self.used_obj.setdefault(obj, [set(), False])[1] = True
+        return '%s__st' % obj
+
+    def obj_mutable(self, obj):
+        return self.spec.mutates if obj == 'self' else self.objs[obj]['local']
+
+    def is_obj(self, node, env):
+        if isinstance(node, ast.Name) and node.id == 'self' and 'self' not in env:
+            return 'self'
+        if isinstance(node, ast.Name) and node.id in self.objs:
+            return node.id
+        return None
+
+    def call_import(self, imp, arg_nodes, env, e, recv='self'):
+        """call of a function translated in another generated module (typed; it never touches the state)"""
+        if len(arg_nodes) != len(imp['params']):
+            self.fail(e, 'imported %s: wrong number of arguments' % imp['coq'])
+        args = []
+        mine = dict(self.spec.self_attrs)
+        for a in imp.get('attrs', []):
+            if a not in mine:
+                self.fail(e, 'imported %s needs self.%s, which this function does not declare' % (imp['coq'], a))
+            args.append(self.obj_attr(recv, a))
+        for x, t in zip(arg_nodes, imp['params']):
+            a, ta = self.expr(x, env)
+            args.append(self.coerce_m(a, ta, t, x))
+        return self.bind(('%s %s' % (imp['coq'], ' '.join(args))).rstrip()), imp['ret']
+
+    def call_method(self, callee, arg_nodes, env, e, recv='self'):
         if True:
             f = ast.Attribute(value=None, attr=callee.name)
+            arg_nodes = list(arg_nodes)
+            while len(arg_nodes) < len(callee.params) and callee.defaults_none[len(arg_nodes)]:
+                arg_nodes.append(ast.copy_location(ast.Constant(value=None), e))      # a default None
             if len(arg_nodes) != len(callee.params):
                 self.fail(e, 'self.%s(): wrong number of arguments' % f.attr)
             args = []
@@ -745,13 +910,34 @@ class Tr:
                 if a in callee.used_attrs:
                     if mine.get(a) != t:
                         self.fail(e, 'self.%s() needs self.%s, which this function does not declare' % (f.attr, a))
-                    self.used.add(a)
-                    args.append('self_' + a)
-            for x, (_, t) in zip(arg_nodes, callee.params):
+                    args.append(self.obj_attr(recv, a))
+            n_fixed = len(args)
+            for x, (pname, t) in zip(arg_nodes, callee.params):
+                if t == OBJ:      # another instance: the header attributes and the state the callee uses of it
+                    o2 = self.is_obj(x, env)
+                    if o2 is None:
+                        self.fail(e, 'argument %s of %s must be an instance' % (pname, f.attr))
+                    ua, us = callee.used_obj.get(pname, [set(), False])
+                    for a, _ in callee.self_attrs:
+                        if a in ua:
+                            args.append(self.obj_attr(o2, a))
+                    if us:
+                        args.append(self.obj_state(o2))
+                    continue
                 a, ta = self.expr(x, env)
+                if callee.alias_path and ta == OPT(t):      # `base, sub = None`: TypeError
+                    a, ta = self.bind('py_some %s' % a), t
                 args.append(self.coerce_m(a, ta, t, x))
             if callee.tparams or callee.closure or callee.used_vops_:
                 self.fail(e, 'call of a polymorphic / inner function')
+            if callee.state:
+                args.insert(n_fixed, self.obj_state(recv))
+            if callee.mutates:
+                if not self.obj_mutable(recv) or self.lazy_depth != 1:
+                    self.fail(e, 'a state-changing call is only allowed at statement level, on an instance this function may change')
+                p = self.bind(('%s %s' % (callee.coq_name, ' '.join(args))).rstrip(), 'p')
+                self.binds.append(('LET ' + self.obj_state(recv), '(snd %s)' % p))
+                return '(fst %s)' % p, callee.ret
             return self.bind(('%s %s' % (callee.coq_name, ' '.join(args))).rstrip()), callee.ret
 
     def call_rest(self, e, env):
@@ -773,6 +959,11 @@ class Tr:
                 args.append(self.coerce(a, ta, t, x))
             self.used_ext.add(f.value.id + '.' + f.attr)
             return '(%s %s)' % (name, ' '.join(args)), tret
+        if isinstance(f, ast.Attribute) and f.attr == 'keys' and not e.args:
+            a, ta = self.expr(f.value, env)
+            if ta != DYN:
+                self.fail(e, '.keys() of a value of type %r' % (ta,))
+            return self.bind('dyn_keys %s' % a), LIST(STR)
         if isinstance(f, ast.Attribute) and f.attr == 'search' and len(e.args) == 1:
             r, tr = self.expr(f.value, env)
             k, tk = self.expr(e.args[0], env)
@@ -789,6 +980,10 @@ class Tr:
             for n in ast.walk(st):
                 if isinstance(n, ast.Name) and isinstance(n.ctx, ast.Store) and n.id not in out:
                     out.append(n.id)
+                if isinstance(n, ast.Expr) and isinstance(n.value, ast.Call) and isinstance(n.value.func, ast.Attribute) \
+                        and n.value.func.attr == 'extend' and isinstance(n.value.func.value, ast.Name) \
+                        and n.value.func.value.id not in out:
+                    out.append(n.value.func.value.id)
         return out
 
     def stmt_expr(self, e, env):
@@ -797,7 +992,8 @@ class Tr:
         return binds, t, ty
 
     def lines(self, binds, pad):
-        return ''.join('%sdo %s <- %s;\n' % (pad, t, r) for t, r in binds)
+        return ''.join(('%slet %s := %s in\n' % (pad, t[4:], r)) if t.startswith('LET ') else ('%sdo %s <- %s;\n' % (pad, t, r))
+                       for t, r in binds)
 
     def raise_stmt(self, st, env):
         exc = st.exc
@@ -860,29 +1056,143 @@ class Tr:
 
     def region(self, st, rest, env, k, ret, ind):
         pad = '  ' * ind
-        carried = [v for v in self.assigned([st]) if v in env]
+        env = dict(env)
+        env.setdefault(ST, DYN)
+        assigned = self.assigned_st([st], env)
 
         def tup(vs):
             return 'tt' if not vs else vs[0] if len(vs) == 1 else '(%s)' % ', '.join(vs)
 
-        def k_reg(env2, ind2):
-            for v in carried:
-                if env2.get(v) != env[v]:
-                    raise TableError('region: variable %s changes its type' % v)
-            return '%sOk (Next %s)\n' % ('  ' * ind2, tup(carried))
-
         def ret_reg(t, ty, node):
-            return 'Ok (Ret %s)' % self.coerce(t, ty, self.spec.ret, node)
+            return 'Ok (Ret %s)' % self.retval(t, ty, node)
         inner = ast.copy_location(ast.If(test=st.test, body=st.body, orelse=st.orelse), st)
+        # pass 1: the variable types at every exit of the region; a variable is carried out when every exit defines it
+        # with the same type, otherwise it is unknown afterwards (its use makes this translation fail -> copied continuation)
+        exits = []
+        saved = (self.tmp, self.size, set(self.fresh_lists))
+        self.block([inner], env, lambda env2, ind2: (exits.append(dict(env2)), '')[1], ret_reg, ind + 1)
+        self.tmp, self.size, self.fresh_lists = saved
+        if not exits:
+            raise TableError('region: no exit')
+        carried, types = [], {}
+        for v in assigned:
+            ts = [e_.get(v) for e_ in exits]
+            if all(t is not None for t in ts) and all(self.compat(t, ts[0]) for t in ts) and not any(
+                    isinstance(t, tuple) and t[0] == 'closure' for t in ts):
+                t0 = ts[0]
+                for t in ts:
+                    t0 = self.join(t0, t)
+                carried.append(v)
+                types[v] = t0
+
+        def k_reg(env2, ind2):
+            return '%sOk (Next %s)\n' % ('  ' * ind2, tup(carried))
         self.in_region += 1
         try:
             body = self.block([inner], env, k_reg, ret_reg, ind + 1)
         finally:
             self.in_region -= 1
+        env_after = dict(env)
+        for v in assigned:
+            env_after.pop(v, None)
+        env_after.update(types)
         c, rv = self.fresh('c'), self.fresh('rv')
-        after = self.block(rest, env, k, ret, ind + 1)
+        after = self.block(rest, env_after, k, ret, ind + 1)
+        pat = '_' if not carried else carried[0] if len(carried) == 1 else '(%s)' % ', '.join(carried)
         return ('%sdo %s <- (\n%s%s  );\n%smatch %s with\n%s| Ret %s => %s\n%s| Next %s =>\n%s%send\n'
-                % (pad, c, body, pad, pad, c, pad, rv, ret(rv, self.spec.ret, st), pad, tup(carried) if carried else '_', after, pad))
+                % (pad, c, body, pad, pad, c, pad, rv, ret(rv, RAW, st), pad, pat, after, pad))
+
+    def retval(self, t, ty, node):
+        """the complete payload of a return: the coerced value, paired with the current state in a state-changing function"""
+        if ty == RAW:
+            return t
+        v = self.coerce(t, ty, self.spec.ret, node)
+        return '(%s, %s)' % (v, ST) if self.spec.mutates else v
+
+    def alias_call(self, e, env):
+        """e = self.<m>(C) with <m> a method that returns the nested dictionary self.<state>[C[0]][C[1]] -> the term of C"""
+        if isinstance(e, ast.Call) and isinstance(e.func, ast.Attribute) and self.is_obj(e.func.value, env) \
+                and len(e.args) == 1 and not e.keywords:
+            callee = self.registry.get((self.spec.cls, e.func.attr))
+            if callee is not None and callee.alias_path:
+                c, tc = self.expr(e.args[0], env)
+                if tc == OPT(CNAME):       # `base, sub = None`: TypeError
+                    c, tc = self.bind('py_some %s' % c), CNAME
+                if tc != CNAME:
+                    self.fail(e, 'classification of type %r' % (tc,))
+                return c, self.is_obj(e.func.value, env)
+        return None
+
+    def mutated_state(self, n, env):
+        """the state variable changed by this node (a store / del through a class dictionary, a state-changing call), or None"""
+        if isinstance(n, (ast.Assign, ast.Delete)):
+            tg = n.targets[0]
+            if isinstance(tg, ast.Subscript) and isinstance(tg.value, ast.Call) and isinstance(tg.value.func, ast.Attribute):
+                cal = self.registry.get((self.spec.cls, tg.value.func.attr))
+                ob = self.is_obj(tg.value.func.value, env)
+                if cal is not None and cal.alias_path and ob:
+                    return ST if ob == 'self' else '%s__st' % ob
+        if isinstance(n, ast.Call) and isinstance(n.func, ast.Attribute):
+            ob = self.is_obj(n.func.value, env)
+            cal = self.registry.get((self.spec.cls, n.func.attr))
+            if ob and cal is not None and cal.mutates:
+                return ST if ob == 'self' else '%s__st' % ob
+        return None
+
+    def assigned_st(self, stmts, env=None):
+        out = self.assigned(stmts)
+        for s_ in stmts:
+            for n in ast.walk(s_):
+                v = self.mutated_state(n, env or {})
+                if v and v not in out:
+                    out.append(v)
+        return out
+
+    @staticmethod
+    def used_before_rebound(v, stmts):
+        """is the variable read by these statements before they bind it again? (syntactic, conservative)"""
+        def loads(n):
+            return any(isinstance(m, ast.Name) and m.id == v and isinstance(m.ctx, ast.Load) for m in ast.walk(n))
+
+        def seq(ss):
+            for s_ in ss:
+                r = one(s_)
+                if r != 'none':
+                    return r
+            return 'none'
+
+        def one(s_):
+            if isinstance(s_, ast.For):
+                if loads(s_.iter):
+                    return 'use'
+                if any(isinstance(m, ast.Name) and m.id == v for m in ast.walk(s_.target)):
+                    return 'rebound'
+                return 'use' if 'use' in (seq(s_.body), seq(s_.orelse)) else 'none'
+            if isinstance(s_, ast.Assign) and len(s_.targets) == 1 and isinstance(s_.targets[0], ast.Name) and s_.targets[0].id == v:
+                return 'use' if loads(s_.value) else 'rebound'
+            if isinstance(s_, ast.If):
+                if loads(s_.test):
+                    return 'use'
+                r1, r2 = seq(s_.body), seq(s_.orelse)
+                if 'use' in (r1, r2):
+                    return 'use'
+                return 'rebound' if r1 == r2 == 'rebound' else 'none'
+            return 'use' if loads(s_) else 'none'
+        return seq(stmts) == 'use'
+
+    @staticmethod
+    def own_breaks(st):
+        """does this for statement contain a break of its own (not of a nested loop)?"""
+        def walk(nodes):
+            for n in nodes:
+                if isinstance(n, ast.Break):
+                    return True
+                if isinstance(n, (ast.For, ast.While, ast.FunctionDef)):
+                    continue
+                if walk(list(ast.iter_child_nodes(n))):
+                    return True
+            return False
+        return walk(st.body)
 
     def block(self, stmts, env, k, ret, ind):
         """stmts: remaining statements; k(env, ind) -> text for falling off the end; ret(term, type, node) -> text"""
@@ -893,12 +1203,130 @@ class Tr:
         if isinstance(st, ast.Pass) or (isinstance(st, ast.Expr) and isinstance(st.value, ast.Constant)
                                         and isinstance(st.value.value, str)):
             return self.block(rest, env, k, ret, ind)
+        if isinstance(st, ast.Assign) and len(st.targets) == 1 and isinstance(st.targets[0], ast.Subscript) \
+                and isinstance(st.targets[0].value, ast.Name) and st.targets[0].value.id in self.fresh_lists \
+                and isinstance(env.get(st.targets[0].value.id), tuple) and env[st.targets[0].value.id][0] == 'list' \
+                and not isinstance(st.targets[0].slice, ast.Slice):
+            # l[i] = v on a list built in this function (never aliased)
+            x = st.targets[0].value.id
+
+            def ev3():
+                v_, tv_ = self.expr(st.value, env)
+                i_ = self.bound(st.targets[0].slice, env)
+                return self.coerce(v_, tv_, env[x][1], st), i_
+            (v_, i_), binds = self.lazy(ev3)
+            return self.lines(binds, pad) + '%sdo %s <- py_list_set %s %s %s;\n' % (pad, x, x, i_, v_) + self.block(rest, env, k, ret, ind)
+        if self.spec.new_object and isinstance(st, ast.Assign) and len(st.targets) == 1 and isinstance(st.targets[0], ast.Name):
+            no = self.spec.new_object
+            holes = {}
+            if self.tmatch(ast.parse(no['src'], mode='eval').body, st.value, holes):
+                # x = <constructor>(..): a new instance; its header attributes are let-bound, its content comes from the parameter
+                x = self.var(st.targets[0].id, st)
+                if x in env or x in self.objs:
+                    self.fail(st, 'instance variable %s is already bound' % x)
+
+                def ev4():
+                    out = []
+                    for a_, t_ in self.spec.self_attrs:
+                        srcv = no['attrs'].get(a_, 'self')
+                        if srcv == 'self':
+                            out.append((a_, self.obj_attr('self', a_)))
+                        elif isinstance(srcv, int):
+                            h_, th_ = self.expr(holes[srcv], env)
+                            out.append((a_, self.coerce(h_, th_, t_, st)))
+                    return out
+                attrs, binds = self.lazy(ev4)
+                self.objs[x] = {'local': True}
+                text = self.lines(binds, pad)
+                for a_, term in attrs:
+                    text += '%slet %s__%s := %s in\n' % (pad, x, a_, term)
+                cargs = ' '.join('%s__%s' % (x, a_) for a_ in no['content_args'])
+                text += '%sdo %s__st <- %s %s;\n' % (pad, x, no['content'], cargs)
+                for a_, (fun_, fargs) in no.get('derived', {}).items():
+                    text += '%sdo %s__%s <- %s %s;\n' % (pad, x, a_, fun_, ' '.join('%s__%s' % (x, b_) for b_ in fargs))
+                if (no['content'], no['content_sig']) not in self.used_tpl:
+                    self.used_tpl.append((no['content'], no['content_sig']))
+                env2 = dict(env)
+                env2['%s__st' % x] = DYN
+                return text + self.block(rest, env2, k, ret, ind)
+        if isinstance(st, (ast.Assign, ast.Delete)) and len(st.targets) == 1 and isinstance(st.targets[0], ast.Subscript) \
+                and not isinstance(st.targets[0].slice, ast.Slice):
+            # <dict inside the state>[K] = V   |   del <dict inside the state>[K]     (Python evaluates V first)
+            tg = st.targets[0]
+
+            def ev():
+                v = None
+                if isinstance(st, ast.Assign):
+                    t_, ty_ = self.expr(st.value, env)
+                    v = self.coerce_m(t_, ty_, DYN, st)
+                if isinstance(tg.value, ast.Name) and isinstance(env.get(tg.value.id), tuple) and env[tg.value.id][0] == 'alias':
+                    ca = (env[tg.value.id][2], env[tg.value.id][1])
+                else:
+                    ca = self.alias_call(tg.value, env)
+                if ca is None:
+                    self.fail(st, 'store / del through something else than a class dictionary of the state')
+                c, ob = ca
+                if not self.obj_mutable(ob):
+                    self.fail(st, 'store into an instance this function may not change')
+                kx, tk = self.expr(tg.slice, env)
+                if tk != STR:
+                    self.fail(st, 'dictionary key of type %r' % (tk,))
+                return v, c, kx, self.obj_state(ob)
+            (v, c, kx, sv), binds = self.lazy(ev)
+            if isinstance(st, ast.Assign):
+                line = '%sdo %s <- dyn_set2 %s (fst %s) (snd %s) %s %s;\n' % (pad, sv, sv, c, c, kx, v)
+            else:
+                line = '%sdo %s <- dyn_del2 %s (fst %s) (snd %s) %s;\n' % (pad, sv, sv, c, c, kx)
+            return self.lines(binds, pad) + line + self.block(rest, env, k, ret, ind)
+        if isinstance(st, ast.Expr) and isinstance(st.value, ast.Call) and isinstance(st.value.func, ast.Attribute) \
+                and st.value.func.attr != 'extend' and self.is_obj(st.value.func.value, env):
+            # a call for its effect on the state
+            binds, t, ty = self.stmt_expr(st.value, env)
+            return self.lines(binds, pad) + self.block(rest, env, k, ret, ind)
+        if isinstance(st, ast.Expr) and isinstance(st.value, ast.Call) and isinstance(st.value.func, ast.Attribute) \
+                and st.value.func.attr == 'extend' and isinstance(st.value.func.value, ast.Name) \
+                and len(st.value.args) == 1 and not st.value.keywords:
+            # x.extend(e) on a list built in this function (never aliased): x = x + list(e)
+            x = st.value.func.value.id
+            tx = env.get(x)
+            if not (isinstance(tx, tuple) and tx[0] == 'list') or x not in self.fresh_lists:
+                self.fail(st, '.extend() on something else than a list built in this function')
+            binds, t, ty = self.stmt_expr(st.value.args[0], env)
+            if ty == DYN:
+                (t, ty), b2 = self.lazy(lambda: (self.bind('dyn_iter %s' % t), LIST(DYN)))
+                binds = binds + b2
+            if not (isinstance(ty, tuple) and ty[0] == 'list' and self.compat(tx, ty)):
+                self.fail(st, '.extend() of a %r with a %r' % (tx, ty))
+            env2 = dict(env)
+            env2[x] = self.join(tx, ty)
+            return self.lines(binds, pad) + '%slet %s := (%s ++ %s) in\n' % (pad, x, x, t) + self.block(rest, env2, k, ret, ind)
+        if isinstance(st, ast.Assign) and len(st.targets) == 1 and isinstance(st.targets[0], ast.Name) \
+                and isinstance(st.value, ast.Call) and isinstance(st.value.func, ast.Attribute) and self.is_obj(st.value.func.value, env) \
+                and self.obj_mutable(self.is_obj(st.value.func.value, env)) \
+                and getattr(self.registry.get((self.spec.cls, st.value.func.attr)), 'alias_path', False):
+            # x = <changing instance>.get_class_dict(C): x names that dictionary (Python reads it now: KeyError / TypeError now)
+            x = self.var(st.targets[0].id, st)
+
+            def ev5():
+                self.expr(st.value, env)                     # the read, for its exceptions
+                return self.alias_call(st.value, env)
+            (c_, ob_), binds = self.lazy(ev5)
+            env2 = dict(env)
+            env2[x] = ('alias', ob_, '%s__c' % x)
+            return self.lines(binds, pad) + '%slet %s__c := %s in\n' % (pad, x, c_) + self.block(rest, env2, k, ret, ind)
         if isinstance(st, (ast.Assign, ast.AugAssign)):
             if isinstance(st, ast.Assign):
                 if len(st.targets) != 1:
                     self.fail(st, 'chained assignment')
                 tgt = st.targets[0]
                 binds, t, ty = self.stmt_expr(st.value, env)
+            elif isinstance(st.op, ast.Add) and isinstance(st.target, ast.Name) and isinstance(env.get(st.target.id), tuple) \
+                    and env[st.target.id][0] == 'list':
+                # l += e on a list built in this function: l.extend(e)
+                new_st = ast.copy_location(ast.Expr(value=ast.Call(func=ast.Attribute(value=ast.Name(id=st.target.id, ctx=ast.Load()),
+                                                    attr='extend', ctx=ast.Load()), args=[st.value], keywords=[])), st)
+                ast.fix_missing_locations(new_st)
+                return self.block([new_st] + rest, env, k, ret, ind)
             else:
                 tgt = st.target
                 if not (isinstance(tgt, ast.Name) and env.get(tgt.id) in (NAT, INT, DYN)):
@@ -916,6 +1344,13 @@ class Tr:
                 self.fail(st, 'unsupported assignment of None')
             elif isinstance(tgt, ast.Name):
                 env2[self.var(tgt.id, st)] = ty
+                if isinstance(st, ast.Assign) and (isinstance(st.value, ast.List) or (isinstance(st.value, ast.BinOp) and isinstance(st.value.op, ast.Mult))
+                                                   or (isinstance(st.value, ast.Call) and isinstance(st.value.func, ast.Name) and st.value.func.id == 'list')
+                                                   or (isinstance(st.value, ast.Subscript) and isinstance(st.value.slice, ast.Slice)
+                                                       and isinstance(ty, tuple) and ty[0] == 'list')):
+                    self.fresh_lists.add(tgt.id)
+                else:
+                    self.fresh_lists.discard(tgt.id)
                 head = '%slet %s := %s in\n' % (pad, tgt.id, t)
             elif isinstance(tgt, ast.Tuple) and len(tgt.elts) == 2 and all(isinstance(x, ast.Name) for x in tgt.elts) \
                     and isinstance(ty, tuple) and ty[0] == 'pair' and tgt.elts[0].id != tgt.elts[1].id:
@@ -949,6 +1384,13 @@ class Tr:
                 self.fail(rest[0], 'statement after return')
             if st.value is None:
                 return pad + ret('None', NONE, st) + '\n'
+            if isinstance(st.value, ast.Tuple) and len(st.value.elts) == 2 and isinstance(self.spec.ret, tuple) and self.spec.ret[0] == 'pair':
+                def ev2():
+                    a_, ta_ = self.expr(st.value.elts[0], env)
+                    b_, tb_ = self.expr(st.value.elts[1], env)
+                    return '(%s, %s)' % (self.coerce(a_, ta_, self.spec.ret[1], st), self.coerce(b_, tb_, self.spec.ret[2], st))
+                t, binds = self.lazy(ev2)
+                return self.lines(binds, pad) + pad + ret(t, self.spec.ret, st) + '\n'
             (t, ty), binds = self.lazy(lambda: (lambda t_, ty_: (self.coerce_m(t_, ty_, self.spec.ret, st), self.spec.ret)
                                                  if (ty_ == DYN and self.spec.ret == INT) else (t_, ty_))(*self.expr(st.value, env)))
             return self.lines(binds, pad) + pad + ret(t, ty, st) + '\n'
@@ -957,10 +1399,18 @@ class Tr:
                 self.fail(rest[0], 'statement after raise')
             binds, t = self.raise_stmt(st, env)
             return self.lines(binds, pad) + pad + t + '\n'
+        if isinstance(st, ast.Break):
+            if not self.loop_brk or self.loop_brk[-1] is None:
+                self.fail(st, 'break outside a loop')
+            return self.loop_brk[-1](env, ind)
         if isinstance(st, ast.Continue):
             if not self.loop_ks:
                 self.fail(st, 'continue outside a loop')
             return self.loop_ks[-1](env, ind)
+        if isinstance(st, ast.Assert) and st.msg is None and not (isinstance(st.test, ast.Constant) and st.test.value is False):
+            binds, t, ty = self.stmt_expr(st.test, env)
+            return ('%s%sif %s then\n%s%selse\n%s  Err ECrash\n'
+                    % (self.lines(binds, pad), pad, self.truth(t, ty, st.test), self.block(rest, env, k, ret, ind + 1), pad, pad))
         if isinstance(st, ast.Assert):
             if not (isinstance(st.test, ast.Constant) and st.test.value is False and st.msg is None):
                 self.fail(st, 'only `assert False` is supported')
@@ -968,17 +1418,32 @@ class Tr:
                 self.fail(rest[0], 'statement after assert False')
             return pad + 'Err ECrash\n'
         if isinstance(st, ast.If) and self.can_fall(st.body) and self.can_fall(st.orelse) and self.big(rest) \
-                and not any(isinstance(n, ast.Continue) for n in ast.walk(st)):
+                and not any(isinstance(n, (ast.Continue, ast.Break)) for n in ast.walk(st)):
             # both branches fall through into a long continuation: translate the `if` as a region with an explicit outcome
             # (Ret = a return inside it, Next = the variables it assigned) instead of copying the continuation into each branch
-            saved = (self.tmp, self.size)
+            saved = (self.tmp, self.size, set(self.fresh_lists))
             try:
                 return self.region(st, rest, env, k, ret, ind)
             except TableError:
-                self.tmp, self.size = saved        # e.g. the continuation needs a type narrowed by the test: copy it instead
+                self.tmp, self.size, self.fresh_lists = saved    # e.g. the continuation needs a type narrowed by the test: copy it instead
         if isinstance(st, ast.If):
             def k2(env2, ind2):
-                return self.block(rest, env2, k, ret, ind2)
+                saved_c = self.cont_stmts
+                self.cont_stmts = saved_c[:-1]          # the continuation itself is now being translated
+                try:
+                    return self.block(rest, env2, k, ret, ind2)
+                finally:
+                    self.cont_stmts = saved_c
+            self.cont_stmts = self.cont_stmts + [rest]
+            try:
+                return self.if_inline(st, rest, env, k, k2, ret, ind)
+            finally:
+                self.cont_stmts = self.cont_stmts[:-1]
+        return self.loops(st, rest, env, k, ret, ind)
+
+    def if_inline(self, st, rest, env, k, k2, ret, ind):
+        pad = '  ' * ind
+        if True:
             c = self.norm_test(st.test)
             if isinstance(c, ast.BoolOp) and self.none_test(c.values[0], env) is not None:
                 first = c.values[0]
@@ -1011,15 +1476,23 @@ class Tr:
                 return ('%smatch %s with\n%s| Some %s =>\n%s%s| None =>\n%s%send\n'
                         % (pad, x, pad, x, some, pad, self.block(st.orelse, env, k2, ret, ind + 1), pad))
             binds, t, ty = self.stmt_expr(c, env)
-            return ('%s%sif %s then\n%s%selse\n%s'
-                    % (self.lines(binds, pad), pad, self.truth(t, ty, c), self.block(st.body, env, k2, ret, ind + 1), pad,
+            env_then, pre = env, ''
+            if isinstance(c, ast.Compare) and len(c.ops) == 1 and isinstance(c.ops[0], ast.Eq) and isinstance(c.left, ast.Name) \
+                    and isinstance(env.get(c.left.id), tuple) and env[c.left.id][0] == 'option':
+                (_, trhs), _b = self.lazy(lambda: self.expr(c.comparators[0], env))
+                if trhs == env[c.left.id][1]:
+                    # in the branch of `x == e` (e not None) x is not None: it has its inner type (the conversion cannot fail)
+                    env_then = dict(env)
+                    env_then[c.left.id] = trhs
+                    pre = '%s  do %s <- py_the %s;\n' % (pad, c.left.id, c.left.id)
+            return ('%s%sif %s then\n%s%s%selse\n%s'
+                    % (self.lines(binds, pad), pad, self.truth(t, ty, c), pre, self.block(st.body, env_then, k2, ret, ind + 1), pad,
                        self.block(st.orelse, env, k2, ret, ind + 1)))
+
+    def loops(self, st, rest, env, k, ret, ind):
+        pad = '  ' * ind
         if isinstance(st, ast.For):
-            if st.orelse:
-                self.fail(st, 'for/else')
-            for n in ast.walk(st):
-                if isinstance(n, ast.Break):
-                    self.fail(n, 'break')
+            brk = bool(st.orelse) or self.own_breaks(st)       # for/else and break: py_for_b with a third outcome
             if isinstance(st.target, ast.Name):
                 xs = [self.var(st.target.id, st)]
             elif isinstance(st.target, ast.Tuple) and len(st.target.elts) == 2 and all(isinstance(x_, ast.Name) for x_ in st.target.elts) \
@@ -1029,15 +1502,28 @@ class Tr:
                 self.fail(st, 'unsupported loop target')
             if any(x_ in env for x_ in xs):
                 self.fail(st, 'a loop variable shadows an existing variable')
-            binds, seq, ts = self.stmt_expr(st.iter, env)
-            if not (isinstance(ts, tuple) and ts[0] == 'list'):
+            if isinstance(st.iter, ast.Tuple):        # a tuple display as the sequence: its elements, in order
+                binds, seq, ts = self.stmt_expr(ast.copy_location(ast.List(elts=st.iter.elts, ctx=ast.Load()), st.iter), env)
+            else:
+                binds, seq, ts = self.stmt_expr(st.iter, env)
+            if ts == DYN:
+                (seq, ts), b2 = self.lazy(lambda: (self.bind('dyn_iter %s' % seq), LIST(DYN)))
+                binds = binds + b2
+            if not (isinstance(ts, tuple) and ts[0] in ('list', 'set')):
                 self.fail(st, 'for over a value of type %r' % (ts,))
-            carried = [v for v in self.assigned(st.body) if v in env]
+            env = dict(env)
+            env.setdefault(ST, DYN)
+            body_assigned = self.assigned_st(st.body, env)
+            carried = [v for v in body_assigned if v in env]
             if any(x_ in self.assigned(st.body) for x_ in xs):
                 self.fail(st, 'a loop variable is assigned in the body')
             if len(xs) == 2 and not (isinstance(ts[1], tuple) and ts[1][0] == 'pair'):
                 self.fail(st, 'two loop variables over elements of type %r' % (ts[1],))
             x = xs[0] if len(xs) == 1 else "'(%s, %s)" % (xs[0], xs[1])
+            # variables that survive the loop although they are first bound inside it (the loop variables, variables assigned in the
+            # body): carried as an option, reading one that was never bound is UnboundLocalError (ECrash)
+            following = list(st.orelse) + rest + [s_ for lst in reversed(self.cont_stmts) for s_ in lst]
+            leak = [v for v in xs + [v for v in body_assigned if v not in env] if self.used_before_rebound(v, following)]
 
             def tup(vs):
                 return 'tt' if not vs else vs[0] if len(vs) == 1 else '(%s)' % ', '.join(vs)
@@ -1045,31 +1531,141 @@ class Tr:
             def pat(vs):
                 return '_' if not vs else vs[0] if len(vs) == 1 else "'(%s)" % ', '.join(vs)
 
-            def k_body(env2, ind2):
-                for v in carried:
-                    if env2.get(v) != env[v]:
-                        self.fail(st, 'loop-carried variable %s changes its type in the body' % v)
-                return '%sOk (Next %s)\n' % ('  ' * ind2, tup(carried))
+            def joinall(v, types):
+                t0 = None
+                for t in types:
+                    if t0 is None or t0 == t:
+                        t0 = t
+                    elif self.compat(t0, t):
+                        t0 = self.join(t0, t)
+                    elif t0 == NONE:
+                        t0 = t if (isinstance(t, tuple) and t[0] == 'option') else OPT(t)
+                    elif t == NONE and isinstance(t0, tuple) and t0[0] == 'option':
+                        pass
+                    elif t == NONE:
+                        t0 = OPT(t0)
+                    elif isinstance(t0, tuple) and t0[0] == 'option' and t0[1] == t:
+                        pass
+                    elif isinstance(t, tuple) and t[0] == 'option' and t[1] == t0:
+                        t0 = t
+                    else:
+                        self.fail(st, 'loop-carried variable %s changes its type in the body (%r / %r)' % (v, t0, t))
+                return t0
+
+            def loop_env(e_):
+                e2 = dict(e_)
+                if len(xs) == 1:
+                    e2[xs[0]] = ts[1]
+                else:
+                    e2[xs[0]], e2[xs[1]] = ts[1][1], ts[1][2]
+                return e2
 
             def ret_body(t, ty, node):
-                return 'Ok (Ret %s)' % self.coerce(t, ty, self.spec.ret, node)
-            env_body = dict(env)
-            if len(xs) == 1:
-                env_body[xs[0]] = ts[1]
-            else:
-                env_body[xs[0]], env_body[xs[1]] = ts[1][1], ts[1][2]
+                return 'Ok (%s %s)' % ('RetB' if brk else 'Ret', self.retval(t, ty, node))
+            # pass 1: the types at the exits of the body
+            exits = []
+            saved = (self.tmp, self.size, set(self.fresh_lists))
+
+            def k_dry(env2, ind2):
+                exits.append(dict(env2))
+                return ''
+            self.loop_depth += 1
+            self.loop_ks.append(k_dry)
+            self.loop_brk.append(k_dry if brk else None)
+            self.block(st.body, loop_env(env), k_dry, ret_body, ind + 2)
+            self.loop_brk.pop()
+            self.loop_ks.pop()
+            self.loop_depth -= 1
+            self.tmp, self.size, self.fresh_lists = saved
+            ctype, ltype = {}, {}
+            for v in carried:
+                ctype[v] = joinall(v, [env[v]] + [e_[v] for e_ in exits if v in e_])
+            for v in leak:
+                tys = [e_[v] for e_ in exits if v in e_]
+                if not tys:
+                    self.fail(st, 'variable %s is used after the loop but never bound in it' % v)
+                ltype[v] = joinall(v, tys)
+            state = carried + [v + '__o' for v in leak]
+
+            def emit_exit(env2, kind, ind2):
+                parts = [self.coerce(('None' if env2.get(v) == NONE else v), env2[v], ctype[v], st) for v in carried]
+                for v in leak:
+                    parts.append(('(Some %s)' % self.coerce(v, env2[v], ltype[v], st)) if (v in env2 and not (
+                        isinstance(env2[v], tuple) and env2[v][0] == 'maybe')) else v + '__o')
+                return '%sOk (%s %s)\n' % ('  ' * ind2, kind, tup(parts))
+
+            def k_body(env2, ind2):
+                return emit_exit(env2, 'NextB' if brk else 'Next', ind2)
+
+            def k_break(env2, ind2):
+                return emit_exit(env2, 'BrkB', ind2)
+            env_in = dict(env)
+            for v in carried:
+                env_in[v] = ctype[v]
+            init = tup([self.coerce(('None' if env[v] == NONE else v), env[v], ctype[v], st) for v in carried] + ['None' for _ in leak])
             self.loop_depth += 1
             self.loop_ks.append(k_body)
-            body = self.block(st.body, env_body, k_body, ret_body, ind + 2)
+            self.loop_brk.append(k_break if brk else None)
+            body = self.block(st.body, loop_env(env_in), k_body, ret_body, ind + 2)
+            self.loop_brk.pop()
             self.loop_ks.pop()
             self.loop_depth -= 1
             c = self.fresh('c')
-            after = self.block(rest, env, k, ret, ind + 1)
+            env_after = dict(env_in)
+            for v in leak:
+                env_after[v] = ('maybe', ltype[v])
+            after = self.block(rest, env_after, k, ret, ind + 1)
             rv = self.fresh('rv')
-            # `ret` of the enclosing level re-wraps a value returned from inside the loop (already coerced)
+            mp = pat(state).lstrip("'")
+            if brk:
+                # exhausted -> the else block, then what follows; broken out of -> what follows
+                if not st.orelse:
+                    return ('%s%sdo %s <- py_for_b %s %s (fun %s %s =>\n%s%s  );\n%smatch %s with\n%s| RetB %s => %s\n%s| BrkB %s | NextB %s =>\n%s%send\n'
+                            % (self.lines(binds, pad), pad, c, seq, init, x, pat(state), body, pad,
+                               pad, c, pad, rv, ret(rv, RAW, st), pad, mp, mp, after, pad))
+                orelse = self.block(list(st.orelse) + rest, env_after, k, ret, ind + 1)
+                return ('%s%sdo %s <- py_for_b %s %s (fun %s %s =>\n%s%s  );\n%smatch %s with\n%s| RetB %s => %s\n%s| BrkB %s =>\n%s%s| NextB %s =>\n%s%send\n'
+                        % (self.lines(binds, pad), pad, c, seq, init, x, pat(state), body, pad,
+                           pad, c, pad, rv, ret(rv, RAW, st), pad, mp, after, pad, mp, orelse, pad))
             return ('%s%sdo %s <- py_for %s %s (fun %s %s =>\n%s%s  );\n%smatch %s with\n%s| Ret %s => %s\n%s| Next %s =>\n%s%send\n'
-                    % (self.lines(binds, pad), pad, c, seq, tup(carried), x, pat(carried), body, pad,
-                       pad, c, pad, rv, ret(rv, self.spec.ret, st), pad, pat(carried).lstrip("'"), after, pad))
+                    % (self.lines(binds, pad), pad, c, seq, init, x, pat(state), body, pad,
+                       pad, c, pad, rv, ret(rv, RAW, st), pad, mp, after, pad))
+        if isinstance(st, ast.While):
+            if st.orelse or any(isinstance(n, (ast.Break, ast.Continue, ast.Return)) for n in ast.walk(st)) or not self.spec.while_fuel:
+                self.fail(st, 'while: only plain loops (no break / continue / return / else) in a function that declares a bound')
+            env = dict(env)
+            env.setdefault(ST, DYN)
+            carried = [v for v in self.assigned_st(st.body, env) if v in env]
+            fb, fuel, tf = self.stmt_expr(ast.parse(self.spec.while_fuel, mode='eval').body, env)
+            if tf != NAT:
+                self.fail(st, 'the declared bound of the while loop is not a nat')
+
+            def tup(vs):
+                return 'tt' if not vs else vs[0] if len(vs) == 1 else '(%s)' % ', '.join(vs)
+
+            def pat(vs):
+                return '_' if not vs else vs[0] if len(vs) == 1 else "'(%s)" % ', '.join(vs)
+            cb, ct, cty = self.stmt_expr(st.test, env)
+            cond = self.wrap(cb, 'Ok %s' % self.truth(ct, cty, st.test))
+
+            def k_w(env2, ind2):
+                for v in carried:
+                    if env2.get(v) != env[v]:
+                        self.fail(st, 'while: variable %s changes its type' % v)
+                return '%sOk (Next %s)\n' % ('  ' * ind2, tup(carried))
+
+            def ret_w(t, ty, node):
+                self.fail(node, 'return inside while')
+            self.loop_ks.append(None)
+            self.loop_brk.append(None)
+            body = self.block(st.body, env, k_w, ret_w, ind + 2)
+            self.loop_brk.pop()
+            self.loop_ks.pop()
+            c, rv = self.fresh('c'), self.fresh('rv')
+            after = self.block(rest, env, k, ret, ind + 1)
+            return ('%s%sdo %s <- py_while %s %s (fun %s => %s) (fun %s =>\n%s%s  );\n%smatch %s with\n%s| Ret %s => %s\n%s| Next %s =>\n%s%send\n'
+                    % (self.lines(fb, pad), pad, c, fuel, tup(carried), pat(carried), cond, pat(carried), body, pad,
+                       pad, c, pad, rv, ret(rv, RAW, st), pad, pat(carried).lstrip("'"), after, pad))
         self.fail(st, 'unsupported statement %s' % type(st).__name__)
 
     # ------------------------------------------------------------------ the function
@@ -1091,6 +1687,11 @@ class Tr:
                 self.fail(fn, 'default of parameter %s must be None on an option-typed (or value-typed) parameter' % p)
         env = {}
         for p, t in spec.closure + spec.params:
+            if t == OBJ:
+                self.var(p, fn)
+                self.objs[p] = {'local': False}
+                env['%s__st' % p] = DYN
+                continue
             env[self.var(p, fn)] = t
         for dec in fn.decorator_list:
             if not (isinstance(dec, ast.Name) and dec.id == 'property'):
@@ -1098,17 +1699,20 @@ class Tr:
 
         def k_top(env2, ind2):
             if spec.ret == UNIT:
-                return '%sOk tt\n' % ('  ' * ind2)
+                return '%sOk %s\n' % ('  ' * ind2, self.retval('tt', UNIT, fn))
             if spec.ret == TRUTH or (isinstance(spec.ret, tuple) and spec.ret[0] == 'option'):
-                return '%sOk %s\n' % ('  ' * ind2, self.coerce('None', NONE, spec.ret, fn))     # implicit `return None`
+                return '%sOk %s\n' % ('  ' * ind2, self.retval('None', NONE, fn))     # implicit `return None`
             self.fail(fn, 'the function can fall off its end (implicit return None)')
 
         def ret_top(t, ty, node):
-            return 'Ok %s' % self.coerce(t, ty, spec.ret, node)
+            return 'Ok %s' % self.retval(t, ty, node)
+        spec.defaults_none = [False] * (len(spec.params) - len(a.defaults)) + [True] * len(a.defaults)
+        if spec.state:
+            env[ST] = DYN
         body = self.block(list(fn.body), env, k_top, ret_top, 1)
         used = set(self.used)
         spec.used_attrs = [a_ for a_, _ in spec.self_attrs if a_ in used]
-        order = [t_.get('param') for t_ in spec.templates]
+        order = [t_.get('param') for t_ in spec.templates] + ([spec.new_object['content']] if spec.new_object else [])
         spec.used_tparams = sorted(self.used_tpl, key=lambda x_: order.index(x_[0]))
         spec.used_vops_ = list(self.used_vops)
         params = []
@@ -1130,7 +1734,18 @@ class Tr:
         for a_, t in spec.self_attrs:
             if a_ in used:
                 params.append('(self_%s : %s)' % (a_, self.ctype(t)))
+        if spec.state:
+            params.append('(%s : jv)' % ST)
+        spec.used_obj = dict((o_, [set(v_[0]), v_[1]]) for o_, v_ in self.used_obj.items() if o_ in self.objs and not self.objs[o_]['local'])
         for p, t in spec.closure + spec.params:
+            if t == OBJ:
+                ua, us = spec.used_obj.get(p, [set(), False])
+                for a_, ta_ in spec.self_attrs:
+                    if a_ in ua:
+                        params.append('(%s__%s : %s)' % (p, a_, self.ctype(ta_)))
+                if us:
+                    params.append('(%s__st : jv)' % p)
+                continue
             params.append('(%s : %s)' % (p, self.ctype(t)))
         if spec.returns_inner:
             inner = self.registry[(spec.cls, spec.name + '.' + spec.returns_inner)]
@@ -1141,7 +1756,8 @@ class Tr:
         spec.lineno = fn.lineno
         return '(* %s:%d %s%s *)\nDefinition %s %s : res %s :=\n%s.\n' % (
             spec.rel, fn.lineno, (spec.cls + '.') if spec.cls else '', spec.name + (('.' + spec.inner) if spec.inner else ''),
-            spec.coq_name, ' '.join(params), self.ctype(spec.ret), body.rstrip('\n'))
+            spec.coq_name, ' '.join(params),
+            ('(%s * jv)%%type' % self.ctype(spec.ret)) if spec.mutates else self.ctype(spec.ret), body.rstrip('\n'))
 
 
 PRELUDE = ('From Coq Require Import Arith.\n'
@@ -1179,6 +1795,11 @@ def translate_all(src, specs, extra_prelude=''):
             if extra:
                 raise TableError('%s: undeclared free variables %s' % (spec.inner, sorted(extra)))
             fn = inner[0]
+        if spec.alias_path:
+            want = ast.parse('def f(self, classification):\n    base, sub = classification\n    return self.%s[base][sub]\n' % spec.state).body[0]
+            body = [s_ for s_ in fn.body if not (isinstance(s_, ast.Expr) and isinstance(s_.value, ast.Constant))]
+            if [ast.dump(x) for x in body] != [ast.dump(x) for x in want.body] or [x.arg for x in fn.args.args] != ['self', 'classification']:
+                raise TableError('%s: expected exactly `base, sub = classification; return self.%s[base][sub]`' % (spec.name, spec.state))
         out.append(Tr(spec, fn, registry).translate() + '\n')
         registry[(spec.cls, spec.name + (('.' + spec.inner) if spec.inner else ''))] = spec
     return ''.join(out)
